@@ -165,7 +165,7 @@ theorem worldOk_arrPopKeep (D : SlabID → DigestFn 4) (w : World) (h : SlabID) 
   obtain ⟨hes, fuel, hn⟩ := arrPopKeep_unfold hc hpop
   obtain ⟨k1, k2, k3, k4, k5, k6⟩ := contOk_arr_pop H0.legal a cx (H0.conts h _ hc)
   have hfst : (a.popIterate cx).1 = a.toList.reverse := (arr_popIterate_refines a cx).1
-  obtain ⟨g1, g2, ⟨c'', hc'', hsd⟩, g4, g5, g6⟩ := pop_core (keep := keep) (es := (a.popIterate cx).1) H0 hh hc
+  obtain ⟨g1, g2, ⟨c'', hc'', hsd⟩, g4, g5, g6, _⟩ := pop_core (keep := keep) (es := (a.popIterate cx).1) H0 hh hc
     (emptied_arr hc cx) (fun x => by simp) (fun e => by rw [hfst]; exact List.mem_reverse)
     k1 rfl k3 k4 (fun hi => by rw [k6 hi]; have := legal_ge H0.legal; simp [inlinedArrayDataSlabPrefixSize]; omega)
     (by rw [k2]; exact Nat.le_refl _) hn
@@ -202,7 +202,7 @@ theorem worldOk_mapPopKeep (D : SlabID → DigestFn 4) (w : World) (h : SlabID) 
     | some i =>
       obtain ⟨_, a, ha⟩ := H0.idxLive h x i hx
       rw [hc] at ha; cases ha
-  obtain ⟨g1, g2, ⟨c'', hc'', hsd⟩, g4, g5, g6⟩ := pop_core (keep := keep) (es := (m.popIterate cx).1.map (·.2)) H0 hh hc
+  obtain ⟨g1, g2, ⟨c'', hc'', hsd⟩, g4, g5, g6, _⟩ := pop_core (keep := keep) (es := (m.popIterate cx).1.map (·.2)) H0 hh hc
     (emptied_map hc cx) hidx
     (fun e => by
       rw [hfst, List.map_reverse]
@@ -247,6 +247,75 @@ theorem worldOk_mapPop (D : SlabID → DigestFn 4) (w : World) (h : SlabID) (cx 
   obtain ⟨m, g1, g2, g3, g4, g5, g6, g7, g8⟩ := worldOk_mapPopKeep D w h [] cx kvs w' cx' H hh hpop
   refine ⟨m, g1, g2, worldOk'_of_kept g3 (fun x c hk _ => ?_), g4, g5, g6, g7, g8⟩
   exact absurd hk.1 (by simp)
+
+/-- `WorldOkPK` for another rank function of the same world -/
+private theorem pk_with_rank {D : SlabID → DigestFn 4} {rank rank' : SlabID → Nat} {K : SlabID → Prop}
+    {w : World} {ctr : Nat} (H : WorldOkPK D rank K w ctr) (hr : CRank rank' w) : WorldOkPK D rank' K w ctr :=
+  ⟨H.legal, H.ids, H.addr, H.conts, H.slots, H.band, H.unique, H.inlRef, H.mutIdx, H.closure, hr, H.below,
+    H.idxLive, H.hinfoBelow⟩
+
+/-- THE STRONG FRAME of `Array.PopIterate` through a current handle `h` (the caller keeping the popped
+    containers `keep`): a container that is neither `h`, nor one of the containers `h` is nested in,
+    nor below a popped element that is disposed of, is UNTOUCHED — same entry in the container table
+    (content, sizes, form).  (`PopFrame` only says that kinds, keys and payloads are unchanged.) -/
+theorem arrPopKeep_strong_frame (D : SlabID → DigestFn 4) (w : World) (h : SlabID) (keep : List SlabID) (cx : Ctx)
+    (es : List Elem) (w' : World) (cx' : Ctx) (H : WorldOk' D w cx.ctr) (hh : HandleOk w h)
+    (hpop : w.arrPopKeep h keep cx = .ok (es, w', cx')) :
+    ∃ a, w.cont? h = some (.arr a) ∧
+      ∀ z, ¬ Anc w z h → NotBelow w (disposedOf keep (.arr a)) z → w'.cont? z = w.cont? z := by
+  obtain ⟨rank0, R0⟩ := H
+  obtain ⟨a, hc⟩ : ∃ a, w.cont? h = some (.arr a) := by
+    unfold arrPopKeep at hpop
+    split at hpop
+    · exact ⟨_, by assumption⟩
+    · cases hpop
+  refine ⟨a, hc, fun z hz hnb => ?_⟩
+  obtain ⟨rank, hr, hle⟩ := rank_raise R0.rank h
+  have H0 := pk_with_rank R0 hr
+  obtain ⟨hes, fuel, hn⟩ := arrPopKeep_unfold hc hpop
+  obtain ⟨k1, k2, k3, k4, k5, k6⟩ := contOk_arr_pop H0.legal a cx (H0.conts h _ hc)
+  have hfst : (a.popIterate cx).1 = a.toList.reverse := (arr_popIterate_refines a cx).1
+  have := pop_core (keep := keep) (es := (a.popIterate cx).1) H0 hh hc
+    (emptied_arr hc cx) (fun x => by simp) (fun e => by rw [hfst]; exact List.mem_reverse)
+    k1 rfl k3 k4 (fun hi => by rw [k6 hi]; have := legal_ge H0.legal; simp [inlinedArrayDataSlabPrefixSize]; omega)
+    (by rw [k2]; exact Nat.le_refl _) hn
+  exact this.2.2.2.2.2.2 z (fun he => hz (he ▸ Anc.refl)) (hle z hz) hnb
+
+/-- THE STRONG FRAME of `OrderedMap.PopIterate` -/
+theorem mapPopKeep_strong_frame (D : SlabID → DigestFn 4) (w : World) (h : SlabID) (keep : List SlabID) (cx : Ctx)
+    (kvs : List (MKey × Elem)) (w' : World) (cx' : Ctx) (H : WorldOk' D w cx.ctr) (hh : HandleOk w h)
+    (hpop : w.mapPopKeep h keep cx = .ok (kvs, w', cx')) :
+    ∃ m, w.cont? h = some (.map m) ∧
+      ∀ z, ¬ Anc w z h → NotBelow w (disposedOf keep (.map m)) z → w'.cont? z = w.cont? z := by
+  obtain ⟨rank0, R0⟩ := H
+  obtain ⟨m, hc⟩ : ∃ m, w.cont? h = some (.map m) := by
+    unfold mapPopKeep at hpop
+    split at hpop
+    · exact ⟨_, by assumption⟩
+    · cases hpop
+  refine ⟨m, hc, fun z hz hnb => ?_⟩
+  obtain ⟨rank, hr, hle⟩ := rank_raise R0.rank h
+  have H0 := pk_with_rank R0 hr
+  obtain ⟨hes, fuel, hn⟩ := mapPopKeep_unfold hc hpop
+  obtain ⟨k1, k2, k3, k4, k5, k6⟩ := contOk_map_pop H0.legal m cx (H0.conts h _ hc)
+  have hfst : (m.popIterate cx).1 = m.toList.reverse := MTree.popIterate_fst m.d m.root cx
+  have hidx : ∀ x, AList.find? ((w.setCont h (.map (m.popIterate cx).2.1)).idxOf h) x = none := by
+    intro x
+    cases hx : AList.find? ((w.setCont h (.map (m.popIterate cx).2.1)).idxOf h) x with
+    | none => rfl
+    | some i =>
+      obtain ⟨_, a, ha⟩ := H0.idxLive h x i hx
+      rw [hc] at ha; cases ha
+  have := pop_core (keep := keep) (es := (m.popIterate cx).1.map (·.2)) H0 hh hc
+    (emptied_map hc cx) hidx
+    (fun e => by
+      rw [hfst, List.map_reverse]
+      exact List.mem_reverse)
+    k1 rfl k3 k4 (fun hi => by
+      rw [k6 hi]; have := legal_ge H0.legal
+      simp [inlinedMapDataSlabPrefixSize, hkeyElementsPrefixSize]; omega)
+    (by rw [k2]; exact Nat.le_refl _) hn
+  exact this.2.2.2.2.2.2 z (fun he => hz (he ▸ Anc.refl)) (hle z hz) hnb
 
 /-! ### 3. Disposal of containers -/
 
